@@ -22,9 +22,9 @@ LEVEL_TEXT = ('Full: every clause of C14 is a Coq theorem about the executable D
               'unknown vector; Hessian row/col arrays and mask address exactly the unknown x unknown pairs of every element, each once, with '
               '(row, col) = (unknown of b, unknown of a). The model is tied to the source by exact integer correspondence on every run.')
 TECHNIQUE = 'Coq proof over a hand-written list/nat/Z model of DofManager (NumPy semantics); exact vm_compute correspondence with the real DofManager'
-GEN = []
-TARGETS = ['model/M_C14_Dof.vo', 'proofs/L_C14.vo', 'model/M_C14_Asm.vo', 'proofs/L_C14_Asm.vo']
-COQ_FILES = ['model/M_C14_Dof.v', 'proofs/L_C14.v', 'model/M_C14_Asm.v', 'proofs/L_C14_Asm.v', 'props/P_C14.v']
+GEN = ['CFG_Dof']
+TARGETS = ['model/M_C14_Dof.vo', 'proofs/L_C14.vo', 'model/M_C14_Asm.vo', 'proofs/L_C14_Asm.vo', 'model/M_C14_IR.vo', 'gen/CFG_Dof.vo', 'proofs/L_C14_IR.vo']
+COQ_FILES = ['model/M_C14_Dof.v', 'proofs/L_C14.v', 'model/M_C14_Asm.v', 'proofs/L_C14_Asm.v', 'model/M_C14_IR.v', 'proofs/L_C14_IR.v', 'props/P_C14.v']
 TRUSTED = ['Coq 8.16.1 kernel + vm_compute (no native_compute)',
            'hand-written model of DofManager (NumPy boolean-mask selection / .at[mask].set / integer-array assignment / tile / ravel written as list '
            'recursions); tied to optimism/FunctionSpace.py only by the exact correspondence on seeded random meshes and BC sets',
@@ -38,6 +38,8 @@ RULE = ('every fourth case is followed by a twin on the same mesh whose BC patte
         'patterns; distinct = distinct (nNodes, dim, connectivity, mask) tuples')
 IMPORTS = ['From OV.model Require Import M_C14_Dof.']
 IMPORTS_ASM = ['From OV.model Require Import M_C14_Dof M_C14_Asm.']
+IMPORTS_IR = ['From OV.model Require Import M_C14_Dof M_C14_IR.', 'From OV.gen Require Import CFG_Dof.']
+IR_FIELDS = ['isBc', 'isUnknown', 'ids', 'unknownIndices', 'bcIndices', 'dofToUnknown', 'sizes', 'rows', 'cols', 'mask']
 
 
 # ----------------------------------------------------------------------------- case generation
@@ -621,6 +623,12 @@ def model_expr(o):
                                                             o['c'], slices, comps)
 
 
+def ir_expr(o):
+    ebcs = '[' + '; '.join('(%s, (%d))' % (zl(nodes), comp) for (_, nodes, comp) in o['ebcs']) + ']'
+    conns = '[' + '; '.join(zl(c) for c in o['conns']) + ']'
+    return 'run_ir_case cfg_dof_methods (%d) (%d) %s %s' % (o['nNodes'], o['dim'], ebcs, conns)
+
+
 FIELDS = ['isBc', 'isUnknown', 'ids', 'unknownIndices', 'bcIndices', 'dofToUnknown', 'sizes', 'rows', 'cols', 'mask',
           'create', 'create_scalar', 'get_bc', 'get_unknown']
 
@@ -706,6 +714,27 @@ def single_stream(ctx, model_ok, cases=None):
             ctx.fail('correspondence', 'model and DofManager disagree on %s (%d nodes, dim %d, %s BCs): model %s... impl %s...'
                      % (f, o['nNodes'], o['dim'], case['kind'], str(m)[:120], str(w)[:120]), case=slim(case))
     ctx.count('model_vs_impl_mismatches', nm)
+    # IR tie: the syntax trees of DofManager extracted from the source on this run (gen/CFG_Dof.v), run by the interpreter of
+    # model/M_C14_IR.v on the same cases (constructor incl. both Hessian helper methods, get_*_size), against the implementation
+    sub = [(c, o) for c, o in zip(kept, outs) if len(o['rows']) <= 4000][:ctx.n(24, 160)]
+    res = C.coq_eval(IMPORTS_IR, [ir_expr(o) for (_, o) in sub], 'C14i', shard=ctx.n(4, 10), timeout=900)
+    ni = 0
+    for (case, o), zs in zip(sub, res):
+        parts = unpack(zs)
+        ctx.count('ir_vs_impl_comparisons', len(IR_FIELDS))
+        if len(parts) != len(IR_FIELDS):
+            ni += 1
+            ctx.fail('correspondence', 'the interpreter of the extracted DofManager source gave no object (%d nodes, dim %d, %s BCs): %s'
+                     % (o['nNodes'], o['dim'], case['kind'], str(zs)[:80]), case=slim(case))
+            continue
+        for f, m in zip(IR_FIELDS, parts):
+            if list(m) != list(o[f]):
+                ni += 1
+                ctx.fail('correspondence', 'extracted DofManager source (gen/CFG_Dof.v, interpreted) and the running DofManager disagree on %s '
+                         '(%d nodes, dim %d, %s BCs): interpreted %s... impl %s...' % (f, o['nNodes'], o['dim'], case['kind'], str(m)[:120], str(o[f])[:120]),
+                         case=slim(case))
+                break
+    ctx.count('ir_vs_impl_mismatches', ni)
 
 
 def search(ctx, reasons):
